@@ -244,3 +244,9 @@ def _register():
 
 
 _register()
+
+
+# the pipeline's requantiser is a ComplexQuantizer: both of its component quantisers must follow the schedule the backend was given
+# ("statistics taken from a common prefix" is a clause of this property) - C09's constructor contract, discharged again here
+from . import c09 as _C9
+contract('C02', 'requantiser_components_share_the_schedule', functions=[_C9.CQ + '.__init__', _C9.RQ + '.__init__'])(_C9.complex_quantizer_init)
